@@ -26,6 +26,7 @@ package main
 import (
 	"fmt"
 	"go/ast"
+	"go/parser"
 	"go/token"
 	"sort"
 	"strconv"
@@ -51,6 +52,15 @@ type glTarget struct {
 	externs   map[string]glExtern
 	// Go types of parameters whose syntactic type the translator cannot use directly
 	paramGo map[string]string
+	// block mode: translate the top-level statements of function `in` from the one whose printed text starts with
+	// blockFrom up to (not including) the one that starts with blockUpto, as a function of the configured binders
+	// (every free name must be covered by `paths`) returning the expression blockResult afterwards.  The block
+	// must not leave the enclosing function (no return inside).
+	in          string
+	blockFrom   string
+	blockUpto   string
+	blockResult string
+	blockResGo  string
 }
 
 var glTargets []glTarget
@@ -280,6 +290,10 @@ func (c *glCtx) expr(e ast.Expr) (string, string) {
 				c.fail(x, "negation in a function whose ints are Nat")
 			}
 			return "(-" + s + ")", ty
+		case token.AND:
+			// &x of a value that is only read afterwards: pointers are `Option`, the address of a value is `some`
+			// (aliasing does not matter in the pure subset: there are no writes through pointers)
+			return "(some " + s + ")", "*" + ty
 		}
 		c.fail(x, "unary %s", x.Op)
 	case *ast.BinaryExpr:
@@ -1143,6 +1157,51 @@ func (c *glCtx) function(fd *ast.FuncDecl) string {
 	return "def " + c.t.name + " " + strings.Join(binders, " ") + " : " + c.t.retLean + " :=\n  " + body + "\n"
 }
 
+// block translates a range of top-level statements of fd (see glTarget.blockFrom) followed by `return <result>`
+func (c *glCtx) block(fd *ast.FuncDecl) string {
+	c.vars = nil
+	c.push()
+	from, upto := -1, -1
+	norm := func(n ast.Node) string { return strings.Join(strings.Fields(c.p.str(n)), " ") }
+	for i, st := range fd.Body.List {
+		txt := norm(st)
+		if strings.HasPrefix(txt, c.t.blockFrom) {
+			if from >= 0 {
+				c.fail(st, "block start %q matches more than one statement", c.t.blockFrom)
+			}
+			from = i
+		}
+		if strings.HasPrefix(txt, c.t.blockUpto) {
+			if upto >= 0 {
+				c.fail(st, "block end %q matches more than one statement", c.t.blockUpto)
+			}
+			upto = i
+		}
+	}
+	if from < 0 || upto < 0 || upto <= from {
+		c.fail(fd, "block %q … %q not found in %s", c.t.blockFrom, c.t.blockUpto, fd.Name.Name)
+	}
+	list := append([]ast.Stmt{}, fd.Body.List[from:upto]...)
+	for _, st := range list {
+		ast.Inspect(st, func(n ast.Node) bool {
+			switch n.(type) {
+			case *ast.ReturnStmt, *ast.GoStmt, *ast.DeferStmt:
+				c.fail(n, "the block leaves or outlives the enclosing function")
+			}
+			return true
+		})
+	}
+	res, err := parser.ParseExpr(c.t.blockResult)
+	if err != nil {
+		c.fail(fd, "block result %q: %v", c.t.blockResult, err)
+	}
+	list = append(list, &ast.ReturnStmt{Results: []ast.Expr{res}})
+	c.void = false
+	c.nres = 1
+	body := c.stmts(list, 1)
+	return "def " + c.t.name + " " + c.t.binders + " : " + c.t.retLean + " :=\n  " + body + "\n"
+}
+
 func genGo2Lean(e *emitter) {
 	groups := map[string][]*glTarget{}
 	var order []string
@@ -1175,8 +1234,11 @@ func genGo2Lean(e *emitter) {
 						text = "/-- NOT TRANSLATED: " + strings.ReplaceAll(ge.msg, "-/", "- /") + " -/\ndef " + t.name + " : KM.Go.Untranslated := ⟨" + leanStr(ge.msg) + "⟩\n"
 					}
 				}()
+				if t.in != "" {
+					fd = p.funcs[t.in]
+				}
 				if fd == nil || fd.Body == nil {
-					panic(glErr{"function " + t.name + " not found in " + t.pkg})
+					panic(glErr{"function " + t.name + t.in + " not found in " + t.pkg})
 				}
 				var file *ast.File
 				for _, f := range p.files {
@@ -1185,11 +1247,17 @@ func genGo2Lean(e *emitter) {
 					}
 				}
 				c := &glCtx{p: p, e: e, t: t, file: file, known: known, usesExt: map[string]bool{}}
-				text = c.function(fd)
+				if t.in != "" {
+					text = c.block(fd)
+				} else {
+					text = c.function(fd)
+				}
 			}()
 			src := ""
-			if fd != nil {
+			if fd != nil && t.in == "" {
 				src = p.str(fd)
+			} else if t.in != "" {
+				src = "block of " + t.in + ": from `" + t.blockFrom + "` up to `" + t.blockUpto + "`, then " + t.blockResult
 			}
 			b.WriteString("/- " + t.pkg + " " + t.name + " (" + status + ")\n   " + strings.ReplaceAll(src, "-/", "- /") + " -/\n")
 			b.WriteString(text + "\n")
